@@ -230,3 +230,183 @@ Example C20_witness_tree_dropped :
   c_k c = [] /\ (exists os, c_obs c 1%nat = Some os /\ a_stopped os = true) /\
   vals (view 1%nat (log_of c)) = [] /\ entitled 1%nat (log_of c) = [5].
 Proof. vm_compute. split; [reflexivity|]. split; [eexists; split; reflexivity|split; reflexivity]. Qed.
+
+(* ---- WHO RECEIVES WHICH NOTIFICATIONS, terminal ones included, on every call tree
+        (Subjects/BroadcastTreeFacts.v; the same development serves C21) ----
+   [tree_entitled K v0 o log] reads the chronological log of calls (made by the driver or from inside
+   any callback) with the functions of the abstract specification Subjects/Family.v: o's FIRST
+   subscribe call is answered with [greet K g], g = the status after the calls logged before it
+   (Subject: nothing while live, the terminal notification once ended, DisposedException once
+   disposed); every later call p with [bcast K g p] (on_next v: [Next v] while live; the first
+   on_error / on_completed of a live subject: that terminal; anything else: nothing).
+   Unsubscription is NOT part of the entitlement.  [pend o k] = the notifications the machine is
+   about to hand to o's wrapper.  At every moment of every run
+        received ++ about to be delivered ++ dropped   is a PERMUTATION of the entitlement,
+   nothing was dropped while o's wrapper is live, and -- new -- NO TERMINAL notification was dropped
+   unless an unsubscribe call for o occurs in the log. *)
+From RxVerif Require Import Subjects.BroadcastTreeFacts.
+
+Theorem C20_tree_notifications_are_the_entitlement :
+  forall (A : Type) (react : nat -> nat -> list (@op A)) (v0 : A) (top : list (@op A)) (fuel o : nat),
+    let c := run subject_cls react fuel (init_cfg v0 top) in
+    exists dropped,
+      Permutation.Permutation (view o (log_of c) ++ pend o (c_k c) ++ dropped) (tree_entitled KSubject v0 o (log_of c)) /\
+      (forall os, c_obs c o = Some os -> a_stopped os = false -> dropped = []) /\
+      (existsb (unsub_ev o) (log_of c) = false -> has_term dropped = false).
+Proof. exact (fun A react v0 => tree_notifications v0 KSubject subject_not_async react v0). Qed.
+Print Assumptions C20_tree_notifications_are_the_entitlement.
+
+(* the values of that entitlement are exactly [entitled] of the three theorems above, and whatever
+   the log it contains AT MOST ONE terminal notification *)
+Theorem C20_tree_entitlement_values :
+  forall (A : Type) (v0 : A) (o : nat) (log : list (@event A)),
+    vals (tree_entitled KSubject v0 o log) = entitled o log.
+Proof. exact (@vals_entitled_subject). Qed.
+Print Assumptions C20_tree_entitlement_values.
+
+Theorem C20_tree_entitled_to_at_most_one_terminal :
+  forall (A : Type) (v0 : A) (o : nat) (log : list (@event A)),
+    (nterm (tree_entitled KSubject v0 o log) <= 1)%nat.
+Proof. exact (fun A v0 => tree_entitled_term_once KSubject subject_not_async v0). Qed.
+Print Assumptions C20_tree_entitled_to_at_most_one_terminal.
+
+(* TERMINAL NOTIFICATIONS.  o subscribed (p1 ++ OSub o), then -- before any terminating call -- p =
+   on_error(e) / on_completed() is called, by the driver or from inside any callback; no
+   unsubscribe call for o is made in the whole run.  When the run has finished o has received that
+   terminal notification EXACTLY ONCE and NOTHING AFTER it (its view is values then the terminal). *)
+Theorem C20_tree_terminal_reaches_every_subscribed_observer :
+  forall (A : Type) (react : nat -> nat -> list (@op A)) (v0 : A) (top : list (@op A)) (fuel o : nat)
+         (p1 p2 p3 : list (@event A)) (p : @op A) (t : ev A),
+    let c := run subject_cls react fuel (init_cfg v0 top) in
+    c_k c = [] ->
+    log_of c = p1 ++ EOp (OSub o) :: p2 ++ EOp p :: p3 ->
+    existsb end_ev (p1 ++ EOp (OSub o) :: p2) = false -> is_term_call p t ->
+    existsb (unsub_ev o) (log_of c) = false ->
+    exists vs, view o (log_of c) = map Next vs ++ [t].
+Proof. exact (fun A react v0 => tree_terminal_call_reaches v0 KSubject subject_not_async react v0). Qed.
+Print Assumptions C20_tree_terminal_reaches_every_subscribed_observer.
+
+(* the same at every moment of an unfinished run: already received, or about to be handed to o's wrapper *)
+Theorem C20_tree_terminal_is_never_lost :
+  forall (A : Type) (react : nat -> nat -> list (@op A)) (v0 : A) (top : list (@op A)) (fuel o : nat)
+         (p1 p2 p3 : list (@event A)) (p : @op A) (t : ev A),
+    let c := run subject_cls react fuel (init_cfg v0 top) in
+    log_of c = p1 ++ EOp (OSub o) :: p2 ++ EOp p :: p3 ->
+    existsb end_ev (p1 ++ EOp (OSub o) :: p2) = false -> is_term_call p t ->
+    existsb (unsub_ev o) (log_of c) = false ->
+    In t (view o (log_of c)) \/ In t (pend o (c_k c)).
+Proof. exact (fun A react v0 => tree_terminal_call_not_lost v0 KSubject subject_not_async react v0). Qed.
+Print Assumptions C20_tree_terminal_is_never_lost.
+
+(* LATE SUBSCRIBERS on trees.  o's first subscribe call is made -- possibly from inside a callback,
+   possibly from inside the delivery of the terminal notification itself -- when the calls logged
+   before it have ended or disposed the subject ([gev] folds the specification's [g_step] over the
+   logged calls).  Then the specification's greeting is ONE terminal notification n (the terminal,
+   or DisposedException: C20_late_subscriber_terminal / _disposed), the very next entry of the log
+   is its delivery to o, and [n] is ALL o ever receives. *)
+Theorem C20_tree_late_subscriber_gets_only_the_terminal_at_once :
+  forall (A : Type) (react : nat -> nat -> list (@op A)) (v0 : A) (top : list (@op A)) (fuel o : nat)
+         (p1 rest : list (@event A)),
+    let c := run subject_cls react fuel (init_cfg v0 top) in
+    log_of c = p1 ++ EOp (OSub o) :: rest -> existsb (sub_ev o) p1 = false ->
+    live (gev (g_init v0) p1) = false ->
+    exists n, greet KSubject (gev (g_init v0) p1) = [n] /\ is_terminal n = true /\
+      ((rest = [] /\ c_k c <> [] /\ view o (log_of c) = []) \/
+       ((exists rest', rest = EGot o n :: rest') /\ view o (log_of c) = [n])).
+Proof. exact (fun A react v0 => tree_late_subscriber v0 KSubject subject_not_async react v0). Qed.
+Print Assumptions C20_tree_late_subscriber_gets_only_the_terminal_at_once.
+
+(* [gev] is the specification's status function on the calls of the log, and "not live" means that
+   an on_error / on_completed / dispose call was logged *)
+Theorem C20_tree_status_of_a_log :
+  forall (A : Type) (log : list (@event A)) (g : @gstate A),
+    gev g log = g_run g (calls_of log) /\ live (gev g log) = live g && negb (existsb end_ev log).
+Proof. exact (fun A log g => conj (gev_g_run log g) (gev_live log g)). Qed.
+Print Assumptions C20_tree_status_of_a_log.
+
+(* REFUTED proposal: "an observer subscribed (and not unsubscribed) WHEN on_completed / on_error is
+   called receives that terminal".  Observer 0 unsubscribes observer 1 from inside its own
+   on_completed callback: 1 was subscribed and not unsubscribed when the call was made, the run is
+   finished, 1 is entitled to Done and has received nothing (the real Subject does the same:
+   AutoDetachObserver.is_stopped).  Hence the "no unsubscribe call for o" hypothesis above. *)
+Example C20_tree_terminal_to_everyone_subscribed_at_the_call_refuted :
+  let c := run subject_cls (react_tbl [(0%nat, [[OUnsub 1%nat]])]) 100 (init_cfg 0 [OSub 0%nat; OSub 1%nat; ODone]) in
+  c_k c = [] /\
+  log_of c = [EOp (OSub 0%nat)] ++ EOp (OSub 1%nat) :: [] ++ EOp ODone :: [EGot 0%nat Done; EOp (OUnsub 1%nat)] /\
+  existsb (@unsub_ev Z 1%nat) ([EOp (OSub 0%nat)] ++ EOp (OSub 1%nat) :: []) = false /\
+  tree_entitled KSubject 0 1%nat (log_of c) = [Done] /\ view 1%nat (log_of c) = [].
+Proof. vm_compute. repeat split. Qed.
+
+(* the hypotheses of C20_tree_terminal_reaches_every_subscribed_observer are satisfiable, with the
+   terminating call made from INSIDE a callback: observer 0 calls on_error(7) inside its on_next(5);
+   observer 1 receives the error, exactly once -- and not the value 5 it was also entitled to, whose
+   delivery came after the terminal one (dropped: the wrapper was stopped by the terminal) *)
+Example C20_witness_tree_terminal_from_a_callback :
+  let c := run subject_cls (react_tbl [(0%nat, [[OErr 7]])]) 100 (init_cfg 0 [OSub 0%nat; OSub 1%nat; ONext 5]) in
+  c_k c = [] /\
+  log_of c = [EOp (OSub 0%nat)] ++ EOp (OSub 1%nat) :: [EOp (ONext 5); EGot 0%nat (Next 5)] ++ EOp (OErr 7) ::
+             [EGot 0%nat (Err 7); EGot 1%nat (Err 7)] /\
+  existsb end_ev ([EOp (OSub 0%nat)] ++ EOp (OSub 1%nat) :: [EOp (ONext 5); EGot 0%nat (Next 5)]) = false /\
+  @is_term_call Z (OErr 7) (Err 7) /\ existsb (unsub_ev 1%nat) (log_of c) = false /\
+  view 1%nat (log_of c) = [Err 7] /\ tree_entitled KSubject 0 1%nat (log_of c) = [Next 5; Err 7].
+Proof. vm_compute. repeat split. Qed.
+
+(* late subscription from inside the delivery of the terminal notification: observer 0 subscribes
+   observer 1 inside its on_completed callback; 1 gets Done at once and nothing else *)
+Example C20_witness_tree_late_subscriber :
+  let c := run subject_cls (react_tbl [(0%nat, [[OSub 1%nat]])]) 100 (init_cfg 0 [OSub 0%nat; ODone]) in
+  log_of c = [EOp (OSub 0%nat); EOp ODone; EGot 0%nat Done] ++ EOp (OSub 1%nat) :: [EGot 1%nat Done] /\
+  existsb (@sub_ev Z 1%nat) [EOp (OSub 0%nat); EOp ODone; EGot 0%nat Done] = false /\
+  live (gev (g_init 0) [EOp (OSub 0%nat); EOp ODone; EGot 0%nat Done]) = false /\
+  greet KSubject (gev (g_init 0) [EOp (OSub 0%nat); EOp ODone; EGot 0%nat Done]) = [Done] /\
+  view 1%nat (log_of c) = [Done].
+Proof. vm_compute. repeat split. Qed.
+
+(* ---- ORDER on call trees whose callbacks do not emit ----
+   On arbitrary trees an observer may receive values in another order than the calls were made
+   (C20_witness_tree_order: deliveries are depth first).  If the observers' callbacks only subscribe,
+   unsubscribe and dispose (themselves or others, also in the middle of a delivery loop) -- the
+   re-entrancy the property quantifies over -- then CALL ORDER holds on every tree and every fuel:
+   what o received followed by what is about to be handed to it is an ordered SUBSEQUENCE of its
+   entitlement (the missing ones were dropped: o's wrapper was stopped), and for a live wrapper it
+   IS the entitlement: every notification of every call made while subscribed, in call order. *)
+Theorem C20_tree_call_order_when_callbacks_do_not_emit :
+  forall (A : Type) (react : nat -> nat -> list (@op A)) (v0 : A),
+    (forall o j p, In p (react o j) -> is_emission p = false) ->
+    forall (top : list (@op A)) (fuel o : nat),
+    let c := run subject_cls react fuel (init_cfg v0 top) in
+    subseq (view o (log_of c) ++ pend o (c_k c)) (tree_entitled KSubject v0 o (log_of c)) /\
+    (forall os, c_obs c o = Some os -> a_stopped os = false ->
+       view o (log_of c) ++ pend o (c_k c) = tree_entitled KSubject v0 o (log_of c)).
+Proof. exact (fun A react v0 => tree_ordered v0 KSubject subject_not_async react v0). Qed.
+Print Assumptions C20_tree_call_order_when_callbacks_do_not_emit.
+
+Theorem C20_tree_live_observer_received_its_entitlement_in_call_order :
+  forall (A : Type) (react : nat -> nat -> list (@op A)) (v0 : A),
+    (forall o j p, In p (react o j) -> is_emission p = false) ->
+    forall (top : list (@op A)) (fuel o : nat) os,
+    let c := run subject_cls react fuel (init_cfg v0 top) in
+    c_k c = [] -> c_obs c o = Some os -> a_stopped os = false ->
+    view o (log_of c) = tree_entitled KSubject v0 o (log_of c).
+Proof. exact (fun A react v0 => tree_ordered_finished v0 KSubject subject_not_async react v0). Qed.
+Print Assumptions C20_tree_live_observer_received_its_entitlement_in_call_order.
+
+(* the hypothesis holds for every finite reaction table that passes the check [quiet_tbl] ... *)
+Theorem C20_quiet_tables_do_not_emit :
+  forall (A : Type) (t : list (nat * list (list (@op A)))),
+    quiet_tbl t = true -> forall o j p, In p (react_tbl t o j) -> is_emission p = false.
+Proof. exact (@quiet_tbl_sound). Qed.
+Print Assumptions C20_quiet_tables_do_not_emit.
+
+(* ... e.g. the table of C20_witness_reentrant (0 unsubscribes 1, 2 subscribes 3, both inside the
+   delivery of 5): 2 (live) received exactly its entitlement in call order, 3 -- subscribed inside
+   the delivery of 5 -- only 6, and 1 nothing of the [5; 6] it was entitled to *)
+Example C20_witness_tree_call_order :
+  let t := [(0%nat, [[OUnsub 1%nat]]); (2%nat, [[OSub 3%nat]])] in
+  let c := run subject_cls (react_tbl t) 100 (init_cfg 0 [OSub 0%nat; OSub 1%nat; OSub 2%nat; ONext 5; ONext 6]) in
+  quiet_tbl t = true /\ c_k c = [] /\
+  (exists os, c_obs c 2%nat = Some os /\ a_stopped os = false) /\
+  view 2%nat (log_of c) = [Next 5; Next 6] /\ tree_entitled KSubject 0 2%nat (log_of c) = [Next 5; Next 6] /\
+  view 3%nat (log_of c) = [Next 6] /\ tree_entitled KSubject 0 3%nat (log_of c) = [Next 6] /\
+  view 1%nat (log_of c) = [] /\ tree_entitled KSubject 0 1%nat (log_of c) = [Next 5; Next 6].
+Proof. vm_compute. split; [reflexivity|]. split; [reflexivity|]. split; [eexists; split; reflexivity|repeat split]. Qed.
